@@ -32,7 +32,8 @@ def run_buffer_reuse(rs, ctx, l, p):
     n = int(rs.integers(max(10, gen.min_rows(cfg) + 4), 25))
     D0 = gen.gen_batch(rs, cfg, cfg["arms"], n, nf, distinct_rows=6)
     D1 = gen.gen_batch(rs, cfg, cfg["arms"], n, nf, distinct_rows=6)
-    bd, br = np.asarray(D0["d"]), np.asarray(D0["r"], dtype=float)
+    # the decisions buffer must be wide enough for every label of both data sets (fixed-width numpy strings)
+    bd, br = np.asarray(D0["d"], dtype=np.asarray(list(D0["d"]) + list(D1["d"])).dtype), np.asarray(D0["r"], dtype=float)
     bX = np.ascontiguousarray(np.asarray(D0["X"], dtype=float)) if D0["X"] is not None else None
     M = gen.build(cfg)
     sh = gen.Shadow(cfg, nf)
